@@ -46,6 +46,8 @@ type Cfg struct {
 	// NonStrict: the application installs a non-strict unmarshaller (Session.SetUnmarshaller); LaxStore: its message store answers a
 	// range it cannot serve with an empty list and no error; BlockCb: (lifecycle rig) its incoming callback blocks until the handler ends
 	NonStrict bool `json:"nonStrict"`
+	// ImposeHb: the application's logon callback overwrites the heartbeat interval of the settings it is handed (0: it does not)
+	ImposeHb int `json:"imposeHb"`
 	LaxStore  bool `json:"laxStore"`
 	// Stamp: the application registers an outgoing handler that amends every message (sets SenderSubID), the documented purpose
 	// of HandleOutgoing: what is transmitted, stored and later retransmitted is the amended message
@@ -80,6 +82,9 @@ func (f *failOnceCounter) SetSeqNum(id fix.StorageID, n int) error {
 
 // one unmarshaller object per strictness for the whole application (Session.SetUnmarshaller on every session)
 var sharedUnmarshaller = map[bool]*encoding.DefaultUnmarshaller{true: encoding.NewDefaultUnmarshaller(true), false: encoding.NewDefaultUnmarshaller(false)}
+
+// SharedUnmarshaller is the application-wide unmarshaller object of the given strictness.
+func SharedUnmarshaller(strict bool) *encoding.DefaultUnmarshaller { return sharedUnmarshaller[strict] }
 
 // laxStore: a message store that answers a range it cannot serve (inverted, beyond what is stored) with nothing, not with an error
 type laxStore struct{ session.MessageStorage }
@@ -325,6 +330,9 @@ func NewRig(cfg Cfg) (*Rig, error) {
 			}
 			if req.Password == "bad" {
 				return errors.New("refused by the application")
+			}
+			if cfg.ImposeHb > 0 {
+				req.HeartBtInt = cfg.ImposeHb
 			}
 			return nil
 		}, cs, ms)
